@@ -243,6 +243,21 @@ fn check_op(sop: &SOp, proto: &[u8], obs: &mut Obs) -> Verdict {
             return Verdict::Fail(format!("{:?}.apply_to_hook on a hook without replace override: {:?}, expected {:?}", op, rec2.0.events, want2));
         }
     }
+    // a hook handed over BY VALUE to generic code is often a `&mut` to the real hook
+    {
+        fn replay<D: similar::algorithms::DiffHook>(op: &DiffOp, mut d: D) -> Result<(), D::Error> {
+            op.apply_to_hook(&mut d)
+        }
+        let mut cap2 = Capture::new();
+        replay(&op, &mut cap2).unwrap();
+        let mut rec3 = Recorder::new();
+        replay(&op, &mut rec3).unwrap();
+        let mut inner = &mut rec3;
+        replay(&op, &mut inner).unwrap();
+        if cap2.ops() != [op] || rec3.events.len() != 2 || rec3.events[0] != rec3.events[1] || matches!(op, DiffOp::Replace { .. }) != matches!(rec3.events[0], Ev::Replace(..)) {
+            return Verdict::Fail(format!("{:?} replayed into `&mut hook` handed over by value: Capture got {:?}, the recording hook {:?}", op, cap2.ops(), rec3.events));
+        }
+    }
     let (ol, nl) = (want_tuple.1.len(), want_tuple.2.len());
     obs.nontrivial = want_tuple.1.start != want_tuple.2.start && (!matches!(op, DiffOp::Replace { .. }) || ol != nl);
     obs.class(match op {
@@ -329,7 +344,16 @@ fn judge_text<'a, T: DiffableStr + ?Sized + std::fmt::Debug + 'a>(d: &'a TextDif
             o => o,
         })
         .collect();
-    for ops in [only_changes, reversed, radius0, with_empties, eq_as_replace] {
+    // the groups of radius 1 and 2 concatenated (same-tag neighbours with a gap between them), and
+    // the RAW script of the diff (no Compact / Replace: inserts before deletes, unmerged runs)
+    let radius1: Vec<similar::DiffOp> = d.grouped_ops(1).concat();
+    let radius2: Vec<similar::DiffOp> = d.grouped_ops(2).concat();
+    let raw: Vec<similar::DiffOp> = {
+        let mut cap = Capture::new();
+        similar::algorithms::diff_slices(d.algorithm(), &mut cap, d.old_slices(), d.new_slices()).unwrap();
+        cap.into_ops()
+    };
+    for ops in [only_changes, reversed, radius0, with_empties, eq_as_replace, radius1, radius2, raw] {
         let h = similar::udiff::UnifiedDiffHunk::new(ops.clone(), d, true);
         let got = flat(h.iter_changes());
         let mut want: Flat<T> = vec![];
@@ -413,7 +437,7 @@ impl Prop for C13 {
     type Case = Case;
     const ID: &'static str = "C13";
     fn rule() -> String {
-        "cases = Op(one op of any of the four kinds with arbitrary offsets/lengths, expanded against injectively valued sequences old[i]=i, new[j]=10^6+j so that any old/new or index mix-up changes a value) | Text(text diff, radius: whole-diff iteration and hunk iteration); enumeration of all ops with offsets and lengths in 0..4. Oracle: exact expected (tag, old_index, new_index, value) vector per kind; iter_slices items == item-wise expansion with 1 (Replace: 2) slices; a generated iterator-protocol script (mix of next()/nth(k)) walks the same expansion, size_hint brackets the remainder, count/last/step_by agree, and after 0, 1, 2 or j next() calls the fold-based consumers (fold, for_each, count, last, find, skip, a peeked Peekable) yield exactly the rest; iter_all_changes / UnifiedDiffHunk::iter_changes (hunks from iter_hunks and hunks built by hand from the changes only, from the reversed op list, from all radius-0 groups concatenated (zero-length Equal ops in the middle) from the op list interleaved with zero-length ops of every kind, and from the op list with every Equal turned into a Replace over the same ranges) == concatenation of per-op expansions and every value is the token at its index; apply_to_hook(Capture) reproduces the op; as_tag_tuple ranges. Non-trivial = old_index != new_index and (Replace) old_len != new_len, or a text diff with >= 2 ops; distinct = distinct serialized case.".into()
+        "cases = Op(one op of any of the four kinds with arbitrary offsets/lengths, expanded against injectively valued sequences old[i]=i, new[j]=10^6+j so that any old/new or index mix-up changes a value) | Text(text diff, radius: whole-diff iteration and hunk iteration); enumeration of all ops with offsets and lengths in 0..4. Oracle: exact expected (tag, old_index, new_index, value) vector per kind; iter_slices items == item-wise expansion with 1 (Replace: 2) slices; a generated iterator-protocol script (mix of next()/nth(k)) walks the same expansion, size_hint brackets the remainder, count/last/step_by agree, and after 0, 1, 2 or j next() calls the fold-based consumers (fold, for_each, count, last, find, skip, a peeked Peekable) yield exactly the rest; iter_all_changes / UnifiedDiffHunk::iter_changes (hunks from iter_hunks and hunks built by hand from the changes only, from the reversed op list, from all radius-0 groups concatenated (zero-length Equal ops in the middle) from the op list interleaved with zero-length ops of every kind, from the op list with every Equal turned into a Replace over the same ranges, from the groups of radius 1 and 2 concatenated, and from the raw script of the algorithm without Compact/Replace) == concatenation of per-op expansions and every value is the token at its index; apply_to_hook(Capture) reproduces the op; as_tag_tuple ranges. Non-trivial = old_index != new_index and (Replace) old_len != new_len, or a text diff with >= 2 ops; distinct = distinct serialized case.".into()
     }
     fn assumptions() -> Vec<String> {
         vec!["sequences are long enough for the op (in-bounds by construction)".into()]
